@@ -194,6 +194,7 @@ def main():
     ap.add_argument("--from-results", default="", help="re-run only the SURVIVED mutants of an earlier result file")
     ap.add_argument("--skip-files", default="")
     ap.add_argument("--full", action="store_true", help="default enumeration depths instead of the smoke sizes")
+    ap.add_argument("--skip-range", default="", help="file.go:from-to[,file.go:from-to] lines not mutated")
     a = ap.parse_args()
     global USE_FULL
     USE_FULL = a.full
@@ -217,6 +218,10 @@ def main():
             if (f, ln, desc, mutated) in surv and f not in skip:
                 keep.append(t)
         st = keep
+    for r in filter(None, a.skip_range.split(",")):
+        f, lr = r.split(":")
+        lo, hi = [int(x) for x in lr.split("-")]
+        st = [t for t in st if not (t[0] == f and lo <= t[1] + 1 <= hi)]
     st = st[a.offset::a.stride]
     if a.limit:
         st = st[:a.limit]
